@@ -187,9 +187,10 @@ def run(argv):
                     continue
                 cases = []
                 if ty == 200:
-                    cases = [(["CO"], [ice("CO")]), (["H2O"], [ice("H2O")]), (["HCO+"], [ice("HCO")]), (["e-"], [])]
+                    cases = [(["CO"], [ice("CO")]), (["H2O"], [ice("H2O")]), (["HCO+"], [ice("HCO")]), (["e-"], []),
+                             (["C-"], [ice("C")]), (["OH-"], [ice("OH")])]      # anions are ions too
                     if cls == "leeds":
-                        cases = cases[:3]
+                        cases = cases[:3] + cases[4:]
                 elif ty in (201, 202, 203, 210):
                     cases = [([ice("CO")], ["CO"]), ([ice("H2O")], ["H2O"]), ([ice("CH4")], ["CH4"]), ([ice("H")], ["H"])]
                 elif ty == 220:
